@@ -15,6 +15,9 @@ mod tokens;
 
 use std::cell::RefCell;
 
+#[global_allocator]
+static GLOBAL: seams::CountingAlloc = seams::CountingAlloc;
+
 /// Panic payloads raised by the simulator itself (never by the code under test).
 #[derive(Debug, Clone, Copy, PartialEq, Eq)]
 pub enum Sentinel {
